@@ -518,6 +518,65 @@ func genCases(seed uint64, n int, thorough bool) []Case {
 		}
 	}
 
+	// special names where the walk does not expect them: ".git" - which the
+	// recursive listing prunes as a DIRECTORY - as a regular file (the "gitdir:"
+	// pointer of worktrees and submodules), as a symbolic link to a file, a
+	// dangling link, a link to a directory, and as a real directory, at the
+	// root and in a sub-directory, with siblings sorting before and after it;
+	// and the file names the walk leaves out (COPYING, tags, .DS_Store,
+	// .gitignore, *.caco3) as DIRECTORIES with files in them.  A non-directory
+	// never prunes anything; a directory named like a skipped file is walked.
+	spBase := []string{"-x", ".a", "a", "z/y", "d/-x", "d/a", "d/z/q", "COPYING/x", "tags/x", "b.caco3/x",
+		".DS_Store/x", ".gitignore/x", "d/tags/t", "d/COPYING/c"}
+	gitAs := func(at string, how int) []TE {
+		g := ".git"
+		up := ""
+		if at != "" {
+			g = at + "/.git"
+			up = "../"
+		}
+		switch how {
+		case 1:
+			return []TE{{P: g}}
+		case 2:
+			return []TE{{P: g, K: "lf", L: up + "a"}}
+		case 3:
+			return []TE{{P: g, K: "lb", L: "nowhere"}}
+		case 4:
+			return []TE{{P: g, K: "ld", L: up + "z"}, {P: g + "/y", V: true}}
+		case 5:
+			return []TE{{P: g, D: true}, {P: g + "/config"}}
+		}
+		return nil
+	}
+	stid := 260000
+	for h0 := 0; h0 < 6; h0++ {
+		for h1 := 0; h1 < 6; h1++ {
+			stid++
+			t := treeEntries(spBase)
+			t = append(t, gitAs("", h0)...)
+			t = append(t, gitAs("d", h1)...)
+			sort.Slice(t, func(i, j int) bool { return t[i].P < t[j].P })
+			for _, sel := range []string{"**", "d/**", "z/**", ".git/**", "d/.git/**", "COPYING/**"} {
+				for _, ig := range [][]string{{}, {"z/"}} {
+					add(Case{Stream: "fileset-special", Op: "fileset", P: "", Tree: t, TreeID: stid,
+						Rule: &Rule{Name: "fs", Files: []string{}, Select: []string{sel}, Ignore: ig}})
+				}
+			}
+		}
+	}
+	// ... and a package that holds nothing but a ".git" file and names sorting after it
+	for h := 1; h < 5; h++ {
+		stid++
+		t := treeEntries([]string{"m/a", "m/b/c", "other/o"})
+		t = append(t, gitAs("m", h)...)
+		sort.Slice(t, func(i, j int) bool { return t[i].P < t[j].P })
+		for _, sel := range []string{"**", "b/**"} {
+			add(Case{Stream: "fileset-special", Op: "fileset", P: "m", Tree: t, TreeID: stid,
+				Rule: &Rule{Name: "fs", Files: []string{}, Select: []string{sel}, Ignore: []string{}}})
+		}
+	}
+
 	// symbolic links in the source tree: to a file inside, to a file outside the
 	// workspace, to a directory outside, dangling, to a directory inside.
 	linkBase := []string{"d/x", "d/y.txt", "d2/x", "a.txt", "p/q.txt"}
